@@ -1,6 +1,6 @@
 (* C25 proofs (handler-limit sentence): the atomicSemaphore never lets more than N handlers
    hold quota, for every interleaving and any number of handler goroutines. *)
-From Coq Require Import List ZArith Bool Lia.
+From Coq Require Import List ZArith Bool Lia Permutation.
 From VLib Require Import Codec Machine.
 From VModel Require Import ServerStop.
 Import ListNotations.
@@ -138,13 +138,14 @@ Qed.
 (* ================= part D: Stop / GracefulStop ordering ================= *)
 Definition rinv (h : bool) (c : conn) (r : srpc) : Prop :=
   (act r = true -> clst r = CNone /\ hs r <> HNone) /\
-  (hs r = HNone -> act r = false /\ clst r <> CNone) /\
-  (h = false -> cxl r = false /\
+  (hs r = HNone -> act r = false /\ clst r <> CNone /\ clst r <> CCancelled) /\
+  (h = false -> clst r <> CCancelled -> cxl r = false /\
      (hs r <> HNone -> act r = false -> exists st, hs r = HRet st /\ clst r = CHandler st)) /\
   (c = CClosed -> act r = false) /\
   (late r = true -> hs r = HNone) /\
   (h = true -> (hs r = HRunning -> cxl r = true) /\ clst r <> CNone) /\
-  (forall st, clst r = CHandler st -> hs r = HRet st).
+  (forall st, clst r = CHandler st -> hs r = HRet st) /\
+  (clst r = CCancelled -> cxl r = true /\ act r = false /\ hs r <> HNone).
 
 Definition pinv (s : gst) (p : spc) : Prop :=
   match p with
@@ -173,7 +174,7 @@ Ltac rinv_solve :=
 
 Ltac rgo r :=
   destruct r; unfold rinv in *; cbn [hs cxl clst act late] in *; subst;
-  repeat match goal with b : bool |- _ => destruct b | x : hst |- _ => destruct x end;
+  repeat match goal with b : bool |- _ => destruct b | x : hst |- _ => destruct x | x : cli |- _ => destruct x end;
   intuition (try congruence; try discriminate; eauto);
   try (match goal with H : forall st, ?c = CHandler st -> _, H' : ?c = CHandler _ |- _ =>
          specialize (H _ H'); first [discriminate | congruence] end);
@@ -236,24 +237,36 @@ Proof.
         try (destruct Hpp as [Q1 Q2]; split; [rewrite Q1; reflexivity | exact Q2]).
   - (* Stop closes the transports *)
     rewrite H in Hp. apply Forall_mid in Hp. destruct Hp as [A [B C]].
-    assert (Hkill : hardc s = false -> Forall (rinv true CClosed) (map kill (rs s))).
-    { intro Eh. apply Forall_forall. intros r Hin. apply in_map_iff in Hin. destruct Hin as [r0 [<- Hin0]].
-      rewrite Forall_forall in Hr. specialize (Hr r0 Hin0). rewrite Eh in Hr.
-      unfold kill. destruct r0 as [h0 x0 c0 a0 lt0]. cbn [act clst hs cxl late] in *.
-      unfold rinv in *. cbn [act clst hs cxl late] in *.
-      destruct a0, c0, h0; cbn [act clst hs cxl late];
-        intuition (try congruence; try discriminate; eauto);
-        try (match goal with H : exists st, _ /\ _ |- _ => destruct H as [? [? ?]]; first [discriminate | congruence] end). }
-    assert (Hps : forall c', c' = CClosed -> Forall (pinv (mkg c' true (wfhd s) (map kill (rs s)) (p1 ++ P2 false :: p2)))
-                                     (p1 ++ P2 false :: p2) \/ True) by (intros; right; exact I).
-    destruct (cn s) eqn:Ec; cbn beta iota.
-    4: { constructor; cbn [cn hardc wfhd rs stops]; auto.
-         apply Forall_mid. split; [|split; [reflexivity|]]; (eapply Forall_impl; [|eassumption]); apply pinv_weaken; auto. }
-    all: destruct (hardc s) eqn:Eh; [specialize (Hh eq_refl); discriminate|].
-    all: constructor; cbn [cn hardc wfhd rs stops]; auto.
-    all: apply Forall_mid; split; [|split; [reflexivity|]]; (eapply Forall_impl; [|eassumption]);
-         intros p Hpp; destruct p as [g|g|g|g|g]; try destruct g; cbn [pinv cn] in *; auto;
-         try (rewrite Ec in Hpp; first [discriminate | destruct Hpp; discriminate]).
+    constructor; cbn [cn hardc wfhd rs stops]; auto.
+    + apply Forall_forall. intros r Hin. apply in_map_iff in Hin. destruct Hin as [r0 [<- Hin0]].
+      rewrite Forall_forall in Hr. specialize (Hr r0 Hin0).
+      unfold kill. destruct (act r0) eqn:Ea.
+      * destruct (hardc s) eqn:Eh.
+        { specialize (Hh eq_refl). destruct Hr as [_ [_ [_ [Q _]]]]. rewrite (Q Hh) in Ea. discriminate. }
+        clear Hin0. rgo r0.
+      * destruct (hardc s) eqn:Eh; [specialize (Hh eq_refl); rewrite Hh in Hr; exact Hr|].
+        clear Hin0. rgo r0.
+    + apply Forall_mid. split; [|split; [reflexivity|]]; (eapply Forall_impl; [|eassumption]);
+        intros p Hpp; destruct p as [g|g|g|g|g]; try destruct g; cbn [pinv cn rs wfhd] in *; auto;
+        try (destruct Hpp as [Q1 Q2]; split; [reflexivity|]; intro Hg; specialize (Q2 Hg);
+             unfold no_running in *; rewrite Forall_forall in *; intros r Hin; apply in_map_iff in Hin;
+             destruct Hin as [r0 [<- Hin0]]; specialize (Q2 r0 Hin0); unfold kill; destruct (act r0); exact Q2).
+  - (* the client cancels *)
+    rewrite H in Hr. apply Forall_mid in Hr. destruct Hr as [H3 [H4 H5]].
+    constructor; cbn [cn hardc wfhd rs stops]; auto.
+    + apply Forall_mid. split; [exact H3|]. split; [|exact H5].
+      destruct (hardc s) eqn:Eh.
+      * specialize (Hh eq_refl). destruct H4 as [_ [_ [_ [Q _]]]]. rewrite (Q Hh) in H0. discriminate.
+      * destruct r as [h0 x0 c0 a0 lt0]. unfold rinv in *. cbn [act clst hs cxl late] in *. subst a0.
+        destruct H4 as [R1 [R2 [R3 [R4 [R5 [R6 [R7 R8]]]]]]]. destruct (R1 eq_refl) as [-> Hn].
+        repeat split; intros; try congruence; try discriminate; auto;
+          try (destruct (cn s); try discriminate; specialize (R4 eq_refl); discriminate).
+    + eapply Forall_impl; [|exact Hp]. apply pinv_weaken; auto. cbn [rs]. rewrite H.
+      unfold no_running. rewrite !Forall_mid. intros [A [B C]]. repeat split; auto.
+  - (* permutation of the stop calls *)
+    constructor; cbn [cn hardc wfhd rs stops]; auto.
+    assert (Hp' : Forall (pinv s) ps) by (eapply Permutation_Forall; eassumption).
+    eapply Forall_impl; [|exact Hp']. apply pinv_weaken; auto.
   - (* second GOAWAY *)
     constructor; cbn [cn hardc wfhd rs stops].
     + intro E. specialize (Hh E). congruence.
@@ -296,29 +309,34 @@ Qed.
 
 Lemma closed_rpcs : forall s, greach s -> cn s = CClosed -> forall r, In r (rs s) ->
   (hs r = HRunning -> cxl r = true) /\ clst r <> CNone /\ (forall st, clst r = CHandler st -> hs r = HRet st) /\
-  (hardc s = false -> hs r <> HNone -> exists st, hs r = HRet st /\ clst r = CHandler st /\ cxl r = false).
+  (hardc s = false -> hs r <> HNone -> clst r <> CCancelled ->
+   exists st, hs r = HRet st /\ clst r = CHandler st /\ cxl r = false).
 Proof.
   intros s Hr Hc r Hin. destruct (greach_inv s Hr) as [_ Hrs _]. rewrite Forall_forall in Hrs.
   specialize (Hrs r Hin). rewrite Hc in Hrs. destruct (hardc s) eqn:Eh.
   - rgo r.
   - destruct r as [h x c a lt]. unfold rinv in Hrs. cbn [hs cxl clst act late] in *.
-    destruct Hrs as [H1 [H2 [H3 [H4 [H5 [H6 H7]]]]]]. specialize (H4 eq_refl). specialize (H3 eq_refl).
-    destruct H3 as [H3 H8]. subst a x.
-    destruct h as [| |st0].
-    + destruct (H2 eq_refl) as [_ Hn]. split; [discriminate|]. split; [exact Hn|]. split; [exact H7|].
-      intros _ Hx. exfalso. apply Hx. reflexivity.
-    + destruct (H8 ltac:(discriminate) eq_refl) as [st [Hx _]]. discriminate.
-    + destruct (H8 ltac:(discriminate) eq_refl) as [st [Hx Hy]]. subst c.
-      split; [discriminate|]. split; [discriminate|]. split; [exact H7|].
-      intros _ _. exists st. repeat split; assumption.
+    destruct Hrs as [H1 [H2 [H3 [H4 [H5 [H6 [H7 H8]]]]]]]. specialize (H4 eq_refl). subst a.
+    split; [|split; [|split; [exact H7|]]].
+    + intro Hh. subst h. destruct c; try (destruct (H8 eq_refl) as [? _]; assumption);
+        destruct (H3 eq_refl ltac:(discriminate)) as [_ Q];
+        destruct (Q ltac:(discriminate) eq_refl) as [stq [? ?]]; discriminate.
+    + destruct h.
+      * apply (H2 eq_refl).
+      * intro Hx. subst c. destruct (H3 eq_refl ltac:(discriminate)) as [_ Q].
+        destruct (Q ltac:(discriminate) eq_refl) as [stq [? ?]]; discriminate.
+      * intro Hx. subst c. destruct (H3 eq_refl ltac:(discriminate)) as [_ Q].
+        destruct (Q ltac:(discriminate) eq_refl) as [stq [? ?]]; discriminate.
+    + intros _ Hn Hcc. destruct (H3 eq_refl Hcc) as [Hx Q]. destruct (Q Hn eq_refl) as [st [Hs Hcl]].
+      exists st. repeat split; assumption.
 Qed.
 
 Lemma accepted_complete : forall s, greach s -> hardc s = false -> In (P4 true) (stops s) ->
-  forall r, In r (rs s) -> hs r <> HNone ->
+  forall r, In r (rs s) -> hs r <> HNone -> clst r <> CCancelled ->
   exists st, hs r = HRet st /\ clst r = CHandler st /\ cxl r = false.
 Proof.
-  intros s Hr Hh Hin r Hir Hn. destruct (graceful_waits s Hr Hin) as [Hc _].
-  destruct (closed_rpcs s Hr Hc r Hir) as [_ [_ [_ H]]]. exact (H Hh Hn).
+  intros s Hr Hh Hin r Hir Hn Hcc. destruct (graceful_waits s Hr Hin) as [Hc _].
+  destruct (closed_rpcs s Hr Hc r Hir) as [_ [_ [_ H]]]. exact (H Hh Hn Hcc).
 Qed.
 
 Lemma no_accept_after : forall s, greach s ->
